@@ -419,6 +419,24 @@ func (h *c08Hist) block(plans []*c08Plan, scenario string) {
 	post := n.observe(h.ctx)
 	h.notePairs(post)
 
+	// transactions in the block whose signers' sequences did not advance: refused by the ante handler on
+	// the running state (counted per signer from the sequences before and after the block)
+	for a := 1; a <= c08NAcc; a++ {
+		signed := int64(0)
+		for _, t := range blockTx {
+			for _, s := range t.signers {
+				if s == a {
+					signed++
+				}
+			}
+		}
+		if d := signed - int64(post.seq[a-1]-cur.seq[a-1]); d > 0 {
+			h.w.CountN("signatures-of-txs-refused-by-ante-inside-the-block", d)
+			if len(plans) > 1 {
+				h.w.Count("multi-tx-block-with-ante-refusal:" + scenario)
+			}
+		}
+	}
 	var items []string
 	nIn, nFailedLater := 0, 0
 	for _, p := range plans {
@@ -526,6 +544,9 @@ func (h *c08Hist) countTx(p *c08Plan, cfg *c08Config, scenario string, blockSize
 	if len(t.signers) > 1 {
 		w.Count("multi-signer:" + outcome)
 	}
+	if t.explicitPayer {
+		w.Count("fee-payer-signs-no-message:" + outcome)
+	}
 	w.Count("conversion-denom:" + cfg.conv)
 	for _, m := range t.msgs {
 		var walk func(m c08Msg)
@@ -622,6 +643,9 @@ func (h *c08Hist) govStep(items []c08GovItem, voteYes, viaTx bool, shape string)
 		its = append(its, it.term())
 		ds = append(ds, it.String())
 		h.w.Count("gov-message:" + it.op + ":" + status)
+		if it.op == "send" && h.st.cfg.has(c08Send) {
+			h.w.Count("gov-executed-MsgSend-while-MsgSend-has-a-fee:" + status)
+		}
 	}
 	ob := h.obsTerm(post)
 	h.steps = append(h.steps, func() string {
@@ -677,8 +701,10 @@ func (h *c08Hist) stepMulti() {
 		// the second one, admitted to the mempool while the payer was still rich, needs base / declared
 		pyr := 1 + r.Intn(c08NAcc)
 		fd := 0
-		if cfg.floor.Denom == c08Denoms[1] {
-			fd = 1
+		for i, d := range c08Denoms {
+			if cfg.floor.Denom == d {
+				fd = i
+			}
 		}
 		p2 := g.plan(st, cfg, c08PlanOpts{payer: pyr, noBal: true, noGrant: true})
 		base2 := c08BaseFee(cfg, p2.tx.gas).AmountOf(c08Denoms[fd])
@@ -1015,6 +1041,27 @@ func (h *c08Hist) gasPhases() {
 		p3.gasMode = "calibrated:block-gas-exhausted"
 		h.block([]*c08Plan{run(limit, false, false, "calibrated:block-gas:first", "exact"), run(limit, false, false, "calibrated:block-gas:overflows", "exact"), p3}, "block-gas-limit")
 		h.setMaxGas(old)
+		// a declared fee equal to the base fee, paid from an allowance of exactly that amount: the ante
+		// handler uses the allowance up (feegrant deletes it), FeeInvoke then finds no grant
+		plain := *cfg
+		plain.schedule = nil
+		h.setCfg(&plain)
+		gr := g.otherThan(pyr)
+		pa := g.plan(h.st, &plain, c08PlanOpts{payer: pyr, granter: gr, noBal: true, body: mkBody(), bodyMode: "allowance-equals-base-fee", feeMode: "exactly-base", gas: 500_000})
+		pa.grantMode = "limit=declared=base"
+		pa.setAllow = append(pa.setAllow, struct {
+			g, p int
+			a    c08Allow
+		}{gr, pyr, c08Allow{present: true, limit: pa.tx.fee}})
+		h.block([]*c08Plan{pa}, "single")
+		outcome := "rejected"
+		if pa.tx.admitted {
+			outcome = "failed"
+			if pa.tx.ok {
+				outcome = "ok"
+			}
+		}
+		h.w.Count("observation:declared-fee=base-fee=allowance:" + outcome)
 		h.stepSingle(true)
 	}
 }
@@ -1058,7 +1105,7 @@ func TestC08(t *testing.T) {
 	w := NewCaseWriter("C08", "PV.Corr.C08", "check_all", 25)
 	n := c08NewNet(t)
 	g := &c08Gen{r: r, n: n}
-	nHist := scale(24, 600)
+	nHist := scale(40, 600)
 	perHist := scale(12, 18)
 	ntTx := map[string]struct{}{} // distinct non-trivial transactions (with their configuration)
 	stat := &c08RunStats{}
